@@ -41,7 +41,10 @@ func verifMapControl(on bool, seed, k uintptr) (maxCount int, iters int)
 
 type c07 struct{}
 
-func init() { core.Register(c07{}) }
+func init() {
+	core.Register(c07{})
+	core.PinMapOrder = func() { verifMapControl(true, 0, 0) }
+}
 
 func (c07) ID() string     { return "C07" }
 func (c07) Level() string  { return "model_checking" }
